@@ -280,6 +280,19 @@ func (s *MsgSpec) canFailOpen(i int) bool {
 	return s.Attach[i].Source == "fs" || s.Attach[i].Source == "file"
 }
 
+// canFailClose: the source of producer i is an fs.FS file, which go-mail closes itself.
+func (s *MsgSpec) canFailClose(i int) bool {
+	if i < len(s.Parts) {
+		return false
+	}
+	i -= len(s.Parts)
+	if i < len(s.Embeds) {
+		return s.Embeds[i].Source == "fs"
+	}
+	i -= len(s.Embeds)
+	return s.Attach[i].Source == "fs"
+}
+
 // canFailIsDir: the source of producer i is a path in the file system.
 func (s *MsgSpec) canFailIsDir(i int) bool {
 	if i < len(s.Parts) {
